@@ -64,6 +64,8 @@ mod protocol;
 mod remote_actor;
 
 pub mod macros;
+#[cfg(feature = "slawlor_ractor_verif")]
+pub mod verif;
 pub mod node;
 
 /// Node's are representing by an integer id
